@@ -1,2 +1,108 @@
-(* Properties/C04.v — property theorems only. (stub) *)
+(* Properties/C04.v — BED lines with 3..12 fields survive write -> read.
+   Only statements; every proof is [exact <lemma>].  The model is Model/Bed.v
+   (BED.Write chunk by chunk, parseLine, the TAB-splitting line reader);
+   [first_n], [bed_ok], [count_byte] are in Spec/BedSpec.v. *)
+From Coq Require Import String.
 From Bio Require Import Base.
+From Bio.Model Require Import Bed.
+From Bio.Spec Require Import BedSpec.
+From Bio.Proofs Require Import BedProofs BedProofsB BedProofsC.
+
+(* For every N in 3..12 and every record whose first N fields are in the
+   domain (any bytes but TAB/CR/LF in the text fields — double quotes included —,
+   any int64, any RGB bytes, block lists of any length equal to the count):
+   the written text reads back as exactly one record, with the same N, the same
+   first N fields and zero values beyond. No bound on any length. *)
+Theorem C04_roundtrip : forall b, bed_ok b ->
+  exists w, write b = Ok w /\ decode w TEOF = [Rec (first_n b)].
+Proof. exact roundtrip. Qed.
+Print Assumptions C04_roundtrip.
+
+(* The written text is one line: N-1 TABs (N tab-separated fields), no CR, and
+   exactly one LF, which is its last byte. *)
+Theorem C04_field_count : forall b, bed_ok b ->
+  exists line, write b = Ok (line ++ [LF])
+    /\ Z.of_nat (count_byte TAB line) = (b_n b - 1)%Z
+    /\ Z.of_nat (length (split_on TAB line)) = b_n b
+    /\ count_byte LF line = 0%nat /\ count_byte CR line = 0%nat.
+Proof. exact field_count. Qed.
+Print Assumptions C04_field_count.
+
+(* Write refuses N outside 3..12: an error and no chunk handed to the writer
+   ([write_calls] is the list of Fprintf calls; [Err] carries none). *)
+Theorem C04_write_refuses : forall b, (b_n b < 3 \/ b_n b > 12)%Z ->
+  write_calls b = Err /\ write b = Err.
+Proof. exact write_refuses. Qed.
+Print Assumptions C04_write_refuses.
+
+(* ... and only then: inside 3..12 every record is written, whatever its fields. *)
+Theorem C04_write_accepts : forall b, (3 <= b_n b <= 12)%Z ->
+  exists cs, write_calls b = Ok cs /\ write b = Ok (concat cs).
+Proof. exact write_accepts. Qed.
+Print Assumptions C04_write_accepts.
+
+(* Files: any number of records sharing one N, written one after the other. *)
+Theorem C04_file_roundtrip : forall k bs, Forall (fun b => bed_ok b /\ b_n b = k) bs ->
+  exists w, write_file bs = Ok w /\ decode w TEOF = map (fun b => Rec (first_n b)) bs.
+Proof. exact file_roundtrip. Qed.
+Print Assumptions C04_file_roundtrip.
+
+(* The two standard-library leaves the round trip rests on, as modelled:
+   Atoi inverts Itoa on int64, ParseUint(_,0,8) reads the decimal text of a byte. *)
+Theorem C04_atoi_itoa : forall z, int64 z -> atoi (itoa z) = Some z.
+Proof. exact atoi_itoa. Qed.
+Print Assumptions C04_atoi_itoa.
+
+Theorem C04_parse_uint8_decimal : forall n, n < 256 -> parse_uint8 (fmt_byte n) = Some n.
+Proof. exact parse_uint8_fmt_byte. Qed.
+Print Assumptions C04_parse_uint8_decimal.
+
+(* Non-vacuity: a 12-field record with double quotes, '#' inside a name, int64
+   extremes and two blocks is in the domain and round-trips; a 10-field record
+   with garbage beyond N is in the domain and comes back with that garbage
+   zeroed; N = 10 with a non-zero block count is outside the domain, and is
+   indeed rejected by the reader (DESIGN.md section 1, Boundaries). *)
+Definition ex12 : bed :=
+  {| b_n := 12; b_chrom := bs "chr""1"; b_start := (-9223372036854775808)%Z;
+     b_end := 9223372036854775807%Z; b_name := bs """a,b#"; b_score := (-5)%Z;
+     b_strand := bs "+"; b_thick_start := 1%Z; b_thick_end := 2%Z; b_rgb := (255, 0, 9);
+     b_block_count := 2%Z; b_block_sizes := [10; -20]%Z; b_block_starts := [0; 30]%Z |}.
+
+Definition ex10 : bed :=
+  {| b_n := 10; b_chrom := bs "c"; b_start := 1%Z; b_end := 2%Z; b_name := []; b_score := 0%Z;
+     b_strand := []; b_thick_start := 0%Z; b_thick_end := 7%Z; b_rgb := (1, 2, 3);
+     b_block_count := 0%Z; b_block_sizes := [4; 5]%Z; b_block_starts := [6]%Z |}.
+
+Ltac ok_tac :=
+  unfold bed_ok, fields_ok, text_ok, clean, strand_valid, rgb_ok, int64; vm_compute;
+  repeat split; try discriminate; try (intros; discriminate);
+  try (left; reflexivity); try (right; left; reflexivity);
+  try (right; right; left; reflexivity); try (right; right; right; reflexivity);
+  repeat constructor; try discriminate.
+
+Example C04_example_ex12 : bed_ok ex12 /\ first_n ex12 = ex12
+  /\ exists w, write ex12 = Ok w /\ decode w TEOF = [Rec ex12]
+               /\ count_byte TAB w = 11%nat /\ count_byte LF w = 1%nat.
+Proof.
+  split; [ok_tac|]. split; [reflexivity|].
+  eexists. split; [vm_compute; reflexivity|]. vm_compute. repeat split.
+Qed.
+
+Example C04_example_ex10 : bed_ok ex10 /\ first_n ex10 <> ex10
+  /\ exists w, write ex10 = Ok w /\ decode w TEOF = [Rec (first_n ex10)].
+Proof.
+  split; [ok_tac|]. split; [discriminate|].
+  eexists. split; [vm_compute; reflexivity|]. vm_compute. reflexivity.
+Qed.
+
+Example C04_example_boundary :
+  let b := {| b_n := 10; b_chrom := bs "c"; b_start := 1%Z; b_end := 2%Z; b_name := []; b_score := 0%Z;
+              b_strand := []; b_thick_start := 0%Z; b_thick_end := 0%Z; b_rgb := (0, 0, 0);
+              b_block_count := 2%Z; b_block_sizes := [4; 5]%Z; b_block_starts := [6; 7]%Z |} in
+  ~ bed_ok b /\ exists w, write b = Ok w /\ decode w TEOF = [ErrItem].
+Proof.
+  split.
+  - intros [_ H]. unfold fields_ok in H. cbn in H.
+    destruct H as (_ & _ & _ & _ & _ & _ & _ & _ & _ & _ & _ & _ & _ & H & _). discriminate.
+  - eexists. split; [vm_compute; reflexivity|]. vm_compute. reflexivity.
+Qed.
